@@ -1050,6 +1050,11 @@ fn c06_check(stream: &[u8]) -> C06Eval {
             start = i + 1;
         }
     }
+    // after a request that upgrades the connection the byte stream is no longer varlink framing
+    // (what follows belongs to the upgraded handler: C02's business), so classification stops there
+    if let Some(u) = msgs.iter().position(|m| serde_json::from_slice::<Value>(m).map(|v| v.get("upgrade") == Some(&json!(true)) && classify(m) == Wf::Well).unwrap_or(false)) {
+        msgs.truncate(u + 1);
+    }
     let classes: Vec<Wf> = msgs.iter().map(|m| classify(m)).collect();
     ev.n_malformed = classes.iter().filter(|c| **c == Wf::Malformed).count();
     // candidate cut points: the first Malformed message is a mandatory cut; every Either before it is an optional cut
